@@ -133,6 +133,12 @@ class C10(Prop):
             m = rng.choice(['neg', 'nan', 'buffer', 'empty'])
             if m == 'neg':
                 c['weights'][rng.randrange(n)][1] = -rng.random()
+                if n >= 2 and rng.random() < 0.4:
+                    # a mixed-sign vector whose sum is (almost) zero
+                    x = rng.choice([0.5, 0.25, 1.0, rng.random()])
+                    c['weights'] = [[a, 0.0] for a, _ in c['weights']]
+                    c['weights'][0][1] = x
+                    c['weights'][1][1] = -x + rng.choice([0.0, 0.0, 1e-9, -1e-9])
             elif m == 'nan':
                 c['prices'][rng.randrange(n)][1] = None
             elif m == 'buffer':
